@@ -141,6 +141,8 @@ def range_item(item):
     hung = False
     for rid, start, end, base, data in specs:
         res = {"cpu": cpu, "rid": rid, "viol": [], "status": "ok"}
+        if rid.startswith("seeded"):
+            res["spec"] = [start, end, base, data.hex()]
         if hung:
             res["status"] = "skipped-after-hang"
             results.append(res)
@@ -316,7 +318,10 @@ def main(run):
                     run.sample({"cpu": res["cpu"], "range": res["rid"], "lines": res.get("lines"), "walk_steps": res.get("steps")})
             for k, desc in res["viol"]:
                 seeded = res["rid"].startswith("seeded")
-                run.violation("%s/%s" % (res["cpu"], k), {"phase": "range", "cpu": res["cpu"], "rid": res["rid"]},
+                wcase = {"phase": "range", "cpu": res["cpu"], "rid": res["rid"]}
+                if res.get("spec"):
+                    wcase["spec"] = res["spec"]
+                run.violation("%s/%s" % (res["cpu"], k), wcase,
                               "%s: %s" % (res["cpu"], desc), instance=None if seeded else res["rid"])
     # --- C
     exe = core.ARTS["san"]["naken_util"]
@@ -364,12 +369,16 @@ def replay_keys(run, cases):
         try:
             if c.get("phase") == "sweep":
                 first = (c["pattern"] // 16) * 16
-                core._VD = None
+                core.reset_vdrv()
                 r = sweep_item((c["cpu"], c["tail_id"], c["addr_id"], first, 16, TAILS[c["tail_id"]]))
                 consume_sweep(tmp, r, {})
             elif c.get("phase") == "range":
                 cp = cpus[c["cpu"]]
-                specs = [s for s in range_specs(cp["name"], cp["bpa"], random.Random(0), 0) if s[0] == c["rid"]]
+                if c.get("spec"):
+                    sp = c["spec"]
+                    specs = [(c["rid"], sp[0], sp[1], sp[2], bytes.fromhex(sp[3]))]
+                else:
+                    specs = [s for s in range_specs(cp["name"], cp["bpa"], random.Random(0), 0) if s[0] == c["rid"]]
                 r = range_item((cp["name"], cp["bpa"], specs))
                 for res in r["ranges"]:
                     for k, desc in res["viol"]:
